@@ -20,7 +20,7 @@ from ..gen import c11_gen as GEN
 
 PID = "C11"
 COQ_HEADER = ("From Coq Require Import List NArith ZArith.\nImport ListNotations.\n"
-              "From SK Require Import lib.Tok lib.LGraph model.C11_Model model.C11_State model.C11_Partial model.C11_Keys.\nLocal Open Scope N_scope.\n")
+              "From SK Require Import lib.Tok lib.LGraph model.C11_Model model.C11_State model.C11_Partial model.C11_Keys model.C11_Attr model.C11_Orbit.\nLocal Open Scope N_scope.\n")
 SHARD = 100
 IMPL_TIMEOUT = 600
 COQ_TIMEOUT = 600
@@ -41,7 +41,7 @@ EXPLANATION = ("Exhaustive sub-space (both tiers): every labelled graph up to is
                "Everything else is seeded random / "
                "corpus sampling.  Theorems (coq/props/C11.v, all closed under the global context): C11_vocabulary, C11_aut_count, C11_aut_group, "
                "C11_vf2_contract, C11_vf2_contract_items, C11_orbits_exact, C11_orbits_partition, C11_components, C11_anchors, C11_object_state, C11_wl_never_splits, C11_wl_partition, C11_wfb_sound, "
-               "C11_dedup_sublist, C11_dedup_first_of_class, C11_dedup_idempotent, C11_partial_prune, C11_partial_prune_hosts, C11_prune_complete, C11_rep_ok, C11_prune_complete_aut, C11_prune_first_of_class, C11_prune_same_results.")
+               "C11_dedup_sublist, C11_dedup_first_of_class, C11_dedup_idempotent, C11_partial_prune, C11_partial_prune_hosts, C11_prune_complete, C11_rep_ok, C11_prune_complete_aut, C11_prune_first_of_class, C11_prune_same_results, C11_configured_labels_only, C11_key_options, C11_rule_labels.")
 TRUSTED_BASE = [
     "Coq 8.16.1 kernel + vm_compute (no native_compute)",
     "hand-written model coq/model/C11_Model.v tied to synkit/Graph/Matcher/{automorphism,auto_est,dedup_matches}.py and the pruning call of "
@@ -200,8 +200,37 @@ def _aut_obs(G, nk=None):
     return [out, True, _impl_vf2(G, A)]
 
 
+def _frac(x, den):
+    """a float metric num/den as the two integers (num = -1 if the float is not such a quotient)"""
+    num = int(round(x * den))
+    return [num if abs(num / den - x) < 1e-9 else -1, den]
+
+
+def _oa_obs(approx, exact, confusion=True):
+    """OrbitAccuracy(approx, exact).compute(): [0, exact-match, (confusion rows,) purity, pairwise accuracy] or [1] = ValueError"""
+    from synkit.Graph.Matcher.orbit import OrbitAccuracy
+    try:
+        oa = OrbitAccuracy(approx, exact).compute()
+    except ValueError:
+        return [1]
+    m = oa.metrics
+    n = len(oa.nodes)
+    out = [0, _frac(m["node_exact_match_fraction"], n or 1)]
+    if confusion:
+        cm = oa.confusion_map
+        out.append([[[ej, c] for ej, c in cm[ai].items()] for ai in range(len(oa.approx_orbits))])
+    out.append(_frac(m["purity"], n or 1))
+    out.append(_frac(m["pairwise_accuracy"], n * (n - 1) // 2) if n >= 2 else [1, 1])
+    return out
+
+
 def _impl_aut(case):
-    return _aut_obs(GG.to_nx(case["g"]))
+    if case.get("attr"):                # attribute dictionaries handed to the model as they are (default options)
+        return _aut_obs_keys(GG.to_nx(case["g"]), None, None)
+    from synkit.Graph.Matcher.automorphism import Automorphism
+    from synkit.Graph.Matcher.auto_est import AutoEst
+    G = GG.to_nx(case["g"])
+    return _aut_obs(G) + [_oa_obs(AutoEst(G).fit().orbits, Automorphism(G).orbits, confusion=False)]
 
 
 def _aut_obs_keys(G, nk, ek):
@@ -224,9 +253,31 @@ def _aut_obs_keys(G, nk, ek):
     return out + [True, _impl_vf2(G, A)]
 
 
+KEY_CODES = {"element": 0, "charge": 1, "order": 2, "aromatic": 3, "hcount": 4, "atom_map": 5}      # model/C11_Attr.v K_*
+VALUE_CODES = {'"*"': 0, "0.0": 1, "1.0": 2}                                          # model/C11_Attr.v V_*
+
+
+def _coq_agraph(g):
+    """(literal of type agraph, key encoder): the attribute DICTIONARIES as they are (key code -> value code, equal codes iff
+    Python ==); selecting the configured keys and supplying the defaults of absent attributes happens in the model."""
+    ik, iv = dict(KEY_CODES), dict(VALUE_CODES)
+
+    def kc(k):
+        return ik.setdefault(k, len(ik))
+
+    def vc(v):
+        return iv.setdefault(json.dumps(_jv(v), default=str, sort_keys=True), len(iv))
+
+    def d(a):
+        return clist([cpair(cN(kc(k)), cN(vc(v))) for k, v in a.items()])
+    return GG.coq_lgraph(g, lambda n, a: d(a), lambda u, v, a: d(a)), kc
+
+
 def _coq_keys(g, nk, ek):
-    nkx, ekx, nkw, ekw = _keysets(nk, ek)
-    return "run_aut_keys %s %s %s" % (_coq_graph(g), _coq_graph(g, nkx, ekx), _coq_graph(g, nkw, ekw))
+    """model/C11_Attr.v run_aut_attr: the options as the caller gave them (None / a possibly empty list of keys)"""
+    ag, kc = _coq_agraph(g)
+    opt = lambda ks: "None" if ks is None else "(Some %s)" % clist([cN(kc(k)) for k in ks])
+    return "run_aut_attr %s %s %s" % (opt(nk), opt(ek), ag)
 
 
 def _matcher(A, sub):
@@ -336,6 +387,20 @@ def _indices(ms, out):
 
 
 IDEM_CFGS = (1, 3, 7, 8, 10)
+# graph_automorphisms(P, ignore_node_attrs=...): the default, identifiers not ignored (atom_map then separates every atom),
+# labels ignored as well (more symmetries); model: C11_Attr.run_dedup_skip on the attribute dictionaries of P
+SKIPS = (("atom_map",), (), ("atom_map", "element"), ["hcount", "atom_map", "charge"])
+
+
+def _skip_obs(case):
+    import synkit.Graph.Matcher.dedup_matches as DM
+    P = GG.to_nx(case["p"])
+    out = []
+    for skip in SKIPS:
+        ms = [dict((p, h) for p, h in m) for m in case["ms"]]
+        auts = DM.graph_automorphisms(P, ignore_node_attrs=skip)
+        out.append([len(auts), _indices(ms, DM.deduplicate_matches_by_automorphisms(ms, auts))])
+    return out
 
 
 def _idempotent_flags(case):
@@ -637,11 +702,13 @@ def impl(case):
     if k == "dedup":
         res = _impl_dedup(case)
         raw, kept = _pm_lists(case)
-        return [[[res[:N_OLD], True, True]] + res[N_OLD:N_OLD + 8], [0, _indices(raw, kept)]] + res[N_OLD + 8:] + [_idempotent_flags(case)]
+        return [[[res[:N_OLD], True, True]] + res[N_OLD:N_OLD + 8], [0, _indices(raw, kept)]] + res[N_OLD + 8:] + [_idempotent_flags(case), _skip_obs(case)]
     if k == "hist":
         return _impl_hist(case)
     if k == "keys":
         return _aut_obs_keys(GG.to_nx(case["g"]), case["nk"], case["ek"])
+    if k == "orbacc":
+        return _oa_obs(case["A"], case["E"])
     if k == "prune":
         return _impl_prune(case)    # + rule centre well-formed, matches defined on its nodes, every raw match represented
     raise AssertionError(k)
@@ -733,6 +800,9 @@ def coq_case(case):
         return _coq_hist(case)
     if k == "keys":
         return _coq_keys(case["g"], case["nk"], case["ek"]) if _in_domain(case["g"]) else None
+    if k == "orbacc":
+        part = lambda P: clist([clist([cN(x) for x in o]) for o in P])
+        return "run_orbit_accuracy %s %s" % (part(case["A"]), part(case["E"]))
     if k == "aut":
         if not _in_domain(case["g"]):
             return None
@@ -753,19 +823,24 @@ def coq_case(case):
                         return None
             if cost > 8 * MONO_BUDGET:
                 return None
-        return "run_aut_wf %s" % _coq_graph(case["g"])
+        if case.get("attr"):
+            return _coq_keys(case["g"], None, None)
+        return "run_aut_all %s" % _coq_graph(case["g"])
     if k == "dedup":
         if not (_in_domain(case["p"]) and _in_domain(case["h"])):
             return None
         worker_init()
         raw, _ = _pm_lists(case)
         raw = [[[p, h] for p, h in m.items()] for m in raw]
+        pa, kc = _coq_agraph(case["p"])
         return ("(let h := %s in let ms := %s in let ho := a_orbits (analyze n_exact e_order h) in "
                 "L [run_dedup_x %s h ms; t_idx (partial_prune (@snd nat mapping) n_exact h 10 (indexed %s)); "
                 "t_idx (dedup_anchor (@snd nat mapping) (indexed ms) None [] (Some (ho ++ [node_ids h]))); "
                 "t_idx (dedup_anchor (@snd nat mapping) (indexed ms) None [] (Some (node_ids h :: ho))); "
-                "t_idx (partial_prune_hosts (@snd nat mapping) n_exact [h; h] 10 (indexed ms)); tlist tbool [%s]])"
-                % (_coq_graph(case["h"]), _coq_maps(case["ms"]), _coq_graph(case["p"]), _coq_maps(raw), "; ".join(["true"] * len(IDEM_CFGS))))
+                "t_idx (partial_prune_hosts (@snd nat mapping) n_exact [h; h] 10 (indexed ms)); tlist tbool [%s]; "
+                "(let pa := %s in L [%s])])"
+                % (_coq_graph(case["h"]), _coq_maps(case["ms"]), _coq_graph(case["p"]), _coq_maps(raw), "; ".join(["true"] * len(IDEM_CFGS)),
+                   pa, "; ".join("run_dedup_skip %s pa ms" % clist([cN(kc(k)) for k in skip]) for skip in SKIPS)))
     if k == "prune":
         worker_init()
         r = _reactor(case, "front")
@@ -782,9 +857,9 @@ def coq_case(case):
             msz = max(len(m) for m in r["raw"])
             if 2 * len(r["raw"]) * max(1, len(r["kept"])) * (1 + r["n_aut"]) * msz * msz > DEDUP_BUDGET:
                 return None
-        ifl, ie = GG.Intern(), GG.Intern()
-        g = GG.coq_lgraph(rc, lambda n, a: "(0, 0, %s)" % cN(ifl(_lab_f(a))), lambda u, v, a: "(0, %s)" % cN(ie(_lab_e(a))))
-        return "run_prune_wf %s %s" % (g, _coq_maps(r["raw"]))
+        # the attribute dictionaries of rule.rc.raw as they are: which attributes count (all but atom_map; every edge
+        # attribute) is decided in the model (C11_Attr.to_rule_graph)
+        return "run_prune_attr %s %s" % (_coq_agraph(rc)[0], _coq_maps(r["raw"]))
     raise AssertionError(k)
 
 
@@ -898,7 +973,6 @@ def _oracle_aut_g(g, nk=None, G=None, ek=None):
     estimate); G = the nx object to analyse (history cases: the shared, edited object) - default: a fresh one built from g"""
     from synkit.Graph.Matcher.automorphism import Automorphism
     from synkit.Graph.Matcher.auto_est import AutoEst
-    from synkit.Graph.Matcher.orbit import OrbitAccuracy
     if G is None:
         G = GG.to_nx(g)
     fails = []
@@ -933,16 +1007,7 @@ def _oracle_aut_g(g, nk=None, G=None, ek=None):
         wl = est.orbits
         if sorted(n for o in wl for n in o) != sorted(G.nodes()):
             fails.append(dict(clause="wl-partition", detail="AutoEst.orbits is not a partition of the nodes: %r" % (wl,)))
-        # orbit.py: purity of the estimate against the truth is 1.0 iff the truth refines ... (metrics recomputed directly)
-        if truth and attrs is None and eattrs is None and len(comps) == 1:
-            oa = OrbitAccuracy(wl, [frozenset(o) for o in got]).compute()
-            idx = {n: i for i, o in enumerate(wl) for n in o}
-            ex = {n: i for i, o in enumerate(got) for n in o}
-            ns = list(G.nodes())
-            pairs = [(a, b) for i, a in enumerate(ns) for b in ns[i + 1:]]
-            acc = (sum((idx[a] == idx[b]) == (ex[a] == ex[b]) for a, b in pairs) / len(pairs)) if pairs else 1.0
-            if abs(oa.metrics["pairwise_accuracy"] - acc) > 1e-12:
-                fails.append(dict(clause="orbit-accuracy", detail="pairwise_accuracy %r vs %r" % (oa.metrics["pairwise_accuracy"], acc)))
+        # (orbit.py's metrics are not part of the property: they are modelled - model/C11_Orbit.v - and compared, not judged here)
     return fails
 
 
@@ -1094,6 +1159,8 @@ def oracle(case):
         return _oracle_hist(case)[:3]
     if k == "keys":
         return _oracle_aut_g(case["g"], case["nk"], ek=case["ek"])[:3]
+    if k == "orbacc":
+        return []            # orbit.py measures the estimate; the property says nothing about the metrics (correspondence only)
     if k == "prune":
         return _oracle_prune(case)[:3]
     raise AssertionError(k)
@@ -1161,14 +1228,16 @@ def neighbours(case, rng):
 
 def _dedup_results(obs):
     """flat list of the per-configuration results of a dedup observable"""
-    return list(obs[0][0][0]) + list(obs[0][1:]) + list(obs[2:-1]) + [obs[1]]
+    return list(obs[0][0][0]) + list(obs[0][1:]) + list(obs[2:-2]) + [obs[1]]
 
 
 def nontrivial(case, obs):
     k = case["kind"]
     if k == "hist":
         return len(case["steps"]) >= 2
-    if k == "keys":
+    if k == "orbacc":
+        return obs[0] == 0 and len(case["A"]) >= 2
+    if k == "keys" or case.get("attr"):
         return obs[0][0] > 1 or any(len(o) >= 2 for o in obs[2][1])
     if k == "dedup":
         return any(r[0] == 0 and len(r[1]) < len(case["ms"]) for r in _dedup_results(obs)[:-1])
@@ -1199,6 +1268,9 @@ def distribution(cases, obss):
             continue
         if c["kind"] == "hist":
             bump(d["hist_scripts"], "%s/%d steps" % (c["script"], len(c["steps"])))
+            continue
+        if c["kind"] == "orbacc":
+            bump(d.setdefault("orbit_accuracy", {}), "ValueError" if o[0] == 1 else ("perfect" if o[4][0] == o[4][1] else "imperfect"))
             continue
         if c["kind"] == "keys":
             bump(d["key_configurations"], "nodes=%r edges=%r" % (c["nk"], c["ek"]))
